@@ -44,6 +44,23 @@ Proof.
 Qed.
 Print Assumptions C18_channel_keys_function.
 
+(** check_future_secret (the CheckFutureSecret route) on any channel slot of any reachable node
+    accepts exactly the secret that [keys_of style net seed id] has at the number asked. *)
+Theorem C18_check_future_secret :
+  forall hkdf sha xpriv bip_master bip_child_h bip_priv lnd_key
+         (seed : bytes) (st : style) (net : N) (ops : list op) (id : bytes) (sl : slot) (n : nat) (s : bytes),
+    st = Native \/ st = Ldk ->
+    lookup id (n_chans (run hkdf sha xpriv bip_master bip_child_h bip_priv lnd_key seed st net ops)) = Some sl ->
+    exists k, keys_of hkdf sha xpriv bip_master bip_child_h bip_priv lnd_key st net seed id = Some k /\
+              (check_future_secret sha (s_keys sl) n s = true <-> s = commit_secret sha k n).
+Proof.
+  intros until s. intros Hs Hl.
+  assert (st <> Lnd) as Hn by (destruct Hs as [-> | ->]; discriminate).
+  pose proof (node_keys_function hkdf sha xpriv bip_master bip_child_h bip_priv lnd_key seed st net ops id sl Hn Hl) as Hk.
+  exists (s_keys sl). split; [symmetry; exact Hk|]. apply check_future_secret_spec.
+Qed.
+Print Assumptions C18_check_future_secret.
+
 (** Different channel ids (of the shapes the API produces) give different keys, provided the
     hash parameters are injective where they are used: the per-channel HKDF in its salt (after
     the LDK mask for the Ldk style), the 192-byte expansion in its key, SHA-256 on its inputs.
@@ -178,6 +195,16 @@ Proof. vm_compute. reflexivity. Qed.
 
 (** the store on concrete secrets: five accepted, all returned, three entries; a secret with a
     flipped bit at an even index is refused and leaves the store unchanged *)
+(** check_future_secret on concrete secrets: the own secret of n is accepted, the neighbours'
+    secrets are not *)
+Example C18_check_future_nonvacuous :
+  let cseed := repeat_bytes 32 [9] in
+  x_check_future cseed 1 (secret_at cseed 1) = true /\
+  x_check_future cseed 1 (secret_at cseed 0) = false /\
+  x_check_future cseed 1 (secret_at cseed 2) = false /\
+  x_check_future cseed 281474976710655 (secret_at cseed 281474976710655) = true.
+Proof. vm_compute. repeat split. Qed.
+
 Example C18_tree_nonvacuous :
   let seed := repeat_bytes 32 [9] in
   let '(st, ok) := feed_first bytes sha256 flip_bit bytes_eqb seed 5 in
